@@ -6,7 +6,7 @@ import GarbleVerif.Proofs.BitMain
 (Model/BitSem.lean) follow `compile.rs` on
 
 * Booleans and integers of every width: literals, variables, `!`, unary `-`, `+`, `-`, `*`, `/`, `%`, `<<`, `>>`,
-  `<`, `>`, `<=`, `>=`, `==`, `!=`, `&`, `|`, `^`, `&&`, `||`, `as` between all these types;
+  `<`, `>`, `<=`, `>=`, `==`, `!=`, `&`, `|`, `^`, `&&`, `||`, `as` between all these types; `==` / `!=` also on values of any aggregate type;
 * tuples, structs, enums and arrays, nested to any depth: tuple, struct and enum literals, `t.i`, `s.f`, array
   literals, `[e; n]`, `lo..hi`, `a[i]` with its bounds check;
 * `if`/`else` as expression and as statement, `match` on Booleans, integers, tuples, structs and enums with
@@ -23,9 +23,10 @@ the wires of every variable in scope (the branches of an `if`, every arm of a `m
 by `!has_prev_match && is_match`, a range pattern by two comparator circuits, a tuple or struct pattern by the AND
 of its components' bits, an enum pattern by comparing the tag; a loop is unrolled). The operators
 are the bit-list functions of Model/Arith.lean (tied to `CircuitBuilder` by C03/C04, proved exact in
-Proofs/Arith*.lean). One abstraction: `a[i]` and `a[i] = v` are modelled by what they select or replace (the
-element at the index, nothing when the index is out of bounds), not by their mux trees; the correspondence run
-compares that with the real circuits.
+Proofs/Arith*.lean). Array accesses are modelled by their circuits too: the mux tree of a read (`Arith.indexMux`, one
+layer per index bit), the per-element mux chains of a write (`Arith.writeAll`) and the comparator of the bounds
+check; Proofs/ArithIndex.lean and Proofs/BitIndex.lean show that they select / replace exactly the element at the
+index, for every array length and element size.
 
 `C01_core`: for every program, every inlining depth, every function body of the fragment, every environment of
 well-typed values and every fuel, if the source semantics return a value then the bit-level evaluation returns
@@ -35,8 +36,8 @@ program level for the fragment, out-of-bounds accesses included). Both direction
 iff the source execution fails. `C01_core_defined`: the source semantics are never stuck on a program of the
 fragment (type soundness).
 
-**Explored (whole language).** Everything outside the fragment (multiplication by a negative literal, `==` on
-aggregates, for-join loops and `join`, constants) is compared on generated programs on every run: circuit output against
+**Explored (whole language).** Everything outside the fragment (multiplication by a negative literal, for-join
+loops and `join`, constants, arrays of 2^32 elements or more) is compared on generated programs on every run: circuit output against
 `Src.evalStmts`, and — for programs of the fragment — against `Bit.bitStmts` as well, which ties the model of
 this theorem to the code.
 -/
